@@ -52,103 +52,107 @@ def _format_n(node: ast.AST, argnames: List[str]) -> str:
 
 def read_glue() -> Any:
     """parse_req_with_marker(req_str, marker):
-         if ";" in req_str:
-             head, _, own_marker = req_str.partition(";")
-             return utils.parse_requirement("{}; ({}) and {}".format(head, own_marker, marker))
-         return utils.parse_requirement(req_str + "; {}".format(marker))
-    (the former unparenthesised  req_str + " and {}"  shape is rejected)"""
+         return utils.parse_requirement(
+             req_str.replace(";", "; (", 1) + ") and {}".format(marker) if ";" in req_str
+             else req_str + "; {}".format(marker))
+    i.e. the requirement's own marker is parenthesised (the former  req_str + " and {}"  shape is rejected)"""
     f = T.func(T.parse("req_compile/metadata/source.py"), "parse_req_with_marker")
     if [a.arg for a in f.args.args] != ["req_str", "marker"]:
         raise TranslateError("parse_req_with_marker arguments changed")
     body = [n for n in f.body if not (isinstance(n, ast.Expr) and isinstance(n.value, ast.Constant))]
-    if len(body) != 2 or not isinstance(body[0], ast.If) or body[0].orelse or not isinstance(body[1], ast.Return):
-        raise TranslateError("parse_req_with_marker: expected `if <c> in req_str: ...; return ...`")
-    t = body[0].test
+    if len(body) != 1 or not isinstance(body[0], ast.Return):
+        raise TranslateError("parse_req_with_marker: expected a single return")
+    call = body[0].value
+    if not (isinstance(call, ast.Call) and _safe_chain(call.func) == "utils.parse_requirement"
+            and len(call.args) == 1 and isinstance(call.args[0], ast.IfExp)):
+        raise TranslateError("parse_req_with_marker: expected utils.parse_requirement(a if c else b)")
+    ife = call.args[0]
+    t = ife.test
     if not (isinstance(t, ast.Compare) and len(t.ops) == 1 and isinstance(t.ops[0], ast.In)
             and isinstance(t.comparators[0], ast.Name) and t.comparators[0].id == "req_str"):
         raise TranslateError("parse_req_with_marker: expected `<const> in req_str`")
     test = _const_str(t.left)
-    ib = body[0].body
-    if len(ib) != 2 or not isinstance(ib[0], ast.Assign) or not isinstance(ib[1], ast.Return):
-        raise TranslateError("parse_req_with_marker: unexpected body of the if")
-    tgt = ib[0].targets[0]
-    call = ib[0].value
-    if not (isinstance(tgt, ast.Tuple) and [getattr(e, "id", None) for e in tgt.elts] == ["head", "_", "own_marker"]
-            and isinstance(call, ast.Call) and _safe_chain(call.func) == "req_str.partition"
-            and len(call.args) == 1 and _const_str(call.args[0]) == test):
-        raise TranslateError("parse_req_with_marker: expected head, _, own_marker = req_str.partition(<same const>)")
-
-    def parsed(ret: ast.Return) -> ast.AST:
-        c = ret.value
-        if not (isinstance(c, ast.Call) and _safe_chain(c.func) == "utils.parse_requirement" and len(c.args) == 1):
-            raise TranslateError("parse_req_with_marker: expected return utils.parse_requirement(<text>)")
-        return c.args[0]
-    fmt3 = _format_n(parsed(ib[1]), ["head", "own_marker", "marker"])
-    pieces = fmt3.split("{}")
-    if len(pieces) != 4 or pieces[0] != "" or pieces[3] != "":
-        raise TranslateError(f"unsupported format {fmt3!r}")
-    b = parsed(body[1])
-    if not (isinstance(b, ast.BinOp) and isinstance(b.op, ast.Add) and isinstance(b.left, ast.Name) and b.left.id == "req_str"):
-        raise TranslateError("parse_req_with_marker: expected req_str + '<fmt>'.format(marker)")
-    fmt1 = _format_of(b.right, "marker")
-    if not fmt1.endswith("{}") or "{" in fmt1[:-2]:
-        raise TranslateError(f"unsupported format {fmt1!r}")
     if len(test) != 1:
         raise TranslateError("single character expected")
-    return test, pieces[1], pieces[2], fmt1[:-2]
+
+    def tail(b: ast.AST) -> Any:
+        if not (isinstance(b, ast.BinOp) and isinstance(b.op, ast.Add)):
+            raise TranslateError("parse_req_with_marker: expected <text> + '<fmt>'.format(marker)")
+        fmt = _format_of(b.right, "marker")
+        if not fmt.endswith("{}") or "{" in fmt[:-2]:
+            raise TranslateError(f"unsupported format {fmt!r}")
+        return b.left, fmt[:-2]
+    left, close = tail(ife.body)
+    # the own marker is opened with a parenthesis right after the FIRST separator
+    if not (isinstance(left, ast.Call) and _safe_chain(left.func) == "req_str.replace" and len(left.args) == 3
+            and _const_str(left.args[0]) == test and isinstance(left.args[2], ast.Constant) and left.args[2].value == 1):
+        raise TranslateError("parse_req_with_marker: the requirement's own marker is not parenthesised "
+                             "(expected req_str.replace(<sep>, <sep + ' ('>, 1) + ') and {}'.format(marker))")
+    opener = _const_str(left.args[1])
+    if not opener.startswith(test) or not opener.rstrip().endswith("(") or not close.lstrip().startswith(")"):
+        raise TranslateError("parse_req_with_marker: unbalanced parentheses around the own marker")
+    left2, semi = tail(ife.orelse)
+    if not (isinstance(left2, ast.Name) and left2.id == "req_str"):
+        raise TranslateError("parse_req_with_marker: expected req_str + '<fmt>'.format(marker)")
+    return test, opener, close, semi
 
 
 def read_setup() -> Any:
     """setup(): name.replace, setup_frameworks, and how an extras_require key becomes marker texts:
-         extra_name, _, env_marker = extra.partition(":") ; extra_name = extra_name.strip()
-         if env_marker.strip(): markers.append("({})".format(env_marker))
-         if extra_name: markers.append('extra=="{}"'.format(extra_name.replace('"', '\\"')))
-         parse_req_with_marker(str(cur_req), " and ".join(markers)) if markers else cur_req"""
+         extra_name, _, env_marker = extra.partition(":")
+         extra_name = extra_name.strip().replace('"', '\\"')
+         markers = ["({})".format(env_marker)] if env_marker.strip() else []
+         if extra_name: markers.append('extra=="{}"'.format(extra_name))
+         marker = " and ".join(markers)
+         parse_req_with_marker(str(req), marker) if marker else req"""
     f = T.func(T.parse("req_compile/metadata/source.py"), "setup")
     frameworks = name_repl = None
     sep = env_fmt = key_fmt = esc = join = None
-    stripped = False
+    used = False
     for node in ast.walk(f):
-        if isinstance(node, ast.Assign) and len(node.targets) == 1 and isinstance(node.targets[0], ast.Name) \
-                and node.targets[0].id == "setup_frameworks":
-            frameworks = list(T.literal(node.value))
-        if isinstance(node, ast.Assign) and len(node.targets) == 1 and isinstance(node.targets[0], ast.Name) \
-                and node.targets[0].id == "name" and isinstance(node.value, ast.Call) \
-                and _safe_chain(node.value.func) == "name.replace":
-            name_repl = (_const_str(node.value.args[0]), _const_str(node.value.args[1]))
+        if isinstance(node, ast.Assign) and len(node.targets) == 1 and isinstance(node.targets[0], ast.Name):
+            tgt = node.targets[0].id
+            v = node.value
+            if tgt == "setup_frameworks":
+                frameworks = list(T.literal(v))
+            elif tgt == "name" and isinstance(v, ast.Call) and _safe_chain(v.func) == "name.replace":
+                name_repl = (_const_str(v.args[0]), _const_str(v.args[1]))
+            elif tgt == "extra_name":
+                # extra_name.strip().replace(a, b)
+                if not (isinstance(v, ast.Call) and isinstance(v.func, ast.Attribute) and v.func.attr == "replace" and len(v.args) == 2
+                        and isinstance(v.func.value, ast.Call) and _safe_chain(v.func.value.func) == "extra_name.strip"
+                        and not v.func.value.args):
+                    raise TranslateError("setup(): expected extra_name = extra_name.strip().replace(a, b)")
+                esc = (_const_str(v.args[0]), _const_str(v.args[1]))
+            elif tgt == "markers":
+                if not (isinstance(v, ast.IfExp) and isinstance(v.test, ast.Call) and _safe_chain(v.test.func) == "env_marker.strip"
+                        and not v.test.args and isinstance(v.body, ast.List) and len(v.body.elts) == 1
+                        and isinstance(v.orelse, ast.List) and not v.orelse.elts):
+                    raise TranslateError("setup(): expected markers = [<fmt>.format(env_marker)] if env_marker.strip() else []")
+                env_fmt = _format_of(v.body.elts[0], "env_marker")
+            elif tgt == "marker":
+                if not (isinstance(v, ast.Call) and isinstance(v.func, ast.Attribute) and v.func.attr == "join"
+                        and len(v.args) == 1 and _safe_chain(v.args[0]) == "markers"):
+                    raise TranslateError("setup(): expected marker = <sep>.join(markers)")
+                join = _const_str(v.func.value)
         if isinstance(node, ast.Assign) and isinstance(node.targets[0], ast.Tuple) \
                 and [getattr(e, "id", None) for e in node.targets[0].elts] == ["extra_name", "_", "env_marker"]:
             c = node.value
             if not (isinstance(c, ast.Call) and _safe_chain(c.func) == "extra.partition" and len(c.args) == 1):
                 raise TranslateError("setup(): extra_name, _, env_marker must come from extra.partition(<sep>)")
             sep = _const_str(c.args[0])
-        if isinstance(node, ast.Assign) and isinstance(node.targets[0], ast.Name) and node.targets[0].id == "extra_name" \
-                and isinstance(node.value, ast.Call) and _safe_chain(node.value.func) == "extra_name.strip" and not node.value.args:
-            stripped = True
-        if isinstance(node, ast.If) and not node.orelse and len(node.body) == 1 and _is_call(node.body[0], "markers.append"):
-            arg = node.body[0].value.args[0]
-            if isinstance(node.test, ast.Call) and _safe_chain(node.test.func) == "env_marker.strip" and not node.test.args:
-                env_fmt = _format_of(arg, "env_marker")
-            elif isinstance(node.test, ast.Name) and node.test.id == "extra_name":
-                if not (isinstance(arg, ast.Call) and isinstance(arg.func, ast.Attribute)
-                        and arg.func.attr == "format" and len(arg.args) == 1):
-                    raise TranslateError("setup(): unexpected extra marker expression")
-                inner = arg.args[0]
-                if not (isinstance(inner, ast.Call) and _safe_chain(inner.func) == "extra_name.replace" and len(inner.args) == 2):
-                    raise TranslateError("setup(): the extra marker format is not applied to extra_name.replace(a, b)")
-                key_fmt = _const_str(arg.func.value)
-                esc = (_const_str(inner.args[0]), _const_str(inner.args[1]))
-            else:
-                raise TranslateError("setup(): unrecognised condition on a markers.append")
-        if isinstance(node, ast.IfExp) and isinstance(node.test, ast.Name) and node.test.id == "markers":
+        if isinstance(node, ast.If) and isinstance(node.test, ast.Name) and node.test.id == "extra_name":
+            if node.orelse or len(node.body) != 1 or not _is_call(node.body[0], "markers.append"):
+                raise TranslateError("setup(): expected `if extra_name: markers.append(...)`")
+            key_fmt = _format_of(node.body[0].value.args[0], "extra_name")
+        if isinstance(node, ast.IfExp) and isinstance(node.test, ast.Name) and node.test.id == "marker":
             c = node.body
             if not (isinstance(c, ast.Call) and _safe_chain(c.func) == "parse_req_with_marker" and len(c.args) == 2
-                    and isinstance(c.args[1], ast.Call) and isinstance(c.args[1].func, ast.Attribute) and c.args[1].func.attr == "join"
-                    and _safe_chain(c.args[1].args[0]) == "markers"
-                    and isinstance(node.orelse, ast.Name) and node.orelse.id == "cur_req"):
-                raise TranslateError("setup(): expected parse_req_with_marker(str(cur_req), <sep>.join(markers)) if markers else cur_req")
-            join = _const_str(c.args[1].func.value)
-    if any(x is None for x in (frameworks, name_repl, sep, env_fmt, key_fmt, esc, join)) or not stripped:
+                    and _safe_chain(c.args[1]) == "marker" and isinstance(c.args[0], ast.Call) and _safe_chain(c.args[0].func) == "str"
+                    and isinstance(node.orelse, ast.Name) and _safe_chain(c.args[0].args[0]) == node.orelse.id):
+                raise TranslateError("setup(): expected parse_req_with_marker(str(req), marker) if marker else req")
+            used = True
+    if any(x is None for x in (frameworks, name_repl, sep, env_fmt, key_fmt, esc, join)) or not used:
         raise TranslateError("setup(): a construct the harvester model is built on was not found")
     if key_fmt.count("{}") != 1 or env_fmt.count("{}") != 1:
         raise TranslateError("unsupported key formats")
